@@ -98,7 +98,7 @@ Qed.
 (* ---- the invariant ------------------------------------------------------------------------------------- *)
 Definition rel (c : cspec) (a : achild) : Prop :=
   c_name c = a_name a /\ c_dis c = false /\ a_dis a = false /\ c_sig c = a_sig a /\
-  a_up a = (if c_pid c =? 0 then 0 else 1)%nat.
+  a_up a = if c_pid c =? 0 then 0%nat else 1%nat.
 
 Definition indexed (l : list cspec) : Prop := forall i c, nth_error l i = Some c -> c_i c = i.
 
@@ -112,7 +112,8 @@ Record Iv (k : config) (s : state) (a : astate) (next : Z) : Prop := mk_Iv {
   iv_pids : NoDup (running (specs s));
   iv_fresh : Forall (fun c => c_pid c < next) (specs s);
   iv_idx : indexed (specs s);
-  iv_restarts : restarts s = a_restarts a
+  iv_restarts : restarts s = a_restarts a;
+  iv_pos : 0 < next
 }.
 
 Lemma rel_names l al : Forall2 rel l al -> map a_name al = map c_name l.
@@ -186,4 +187,530 @@ Proof.
     + symmetry. eapply nodup_names_idx; eauto.
     + symmetry. eapply (nodup_pids_idx l i j ci c); eauto.
   - intros ->. rewrite Hi in Hj. inversion Hj; subst. unfold matches. rewrite Z.eqb_refl. reflexivity.
+Qed.
+
+(* ---- updates keep the invariant's ingredients --------------------------------------------------------------- *)
+Lemma names_update i p l : map c_name (update_nth i (fun c => with_pid c p) l) = map c_name l.
+Proof. revert i. induction l as [|x l IH]; intros [|i]; cbn [update_nth map]; try reflexivity. f_equal. apply IH. Qed.
+
+Lemma nth_update {f : cspec -> cspec} : forall l i j,
+  nth_error (update_nth i f l) j = if Nat.eqb j i then option_map f (nth_error l j) else nth_error l j.
+Proof.
+  induction l as [|x l IH]; intros i j.
+  - destruct i; destruct j; cbn; try reflexivity; destruct (Nat.eqb j i); reflexivity.
+  - destruct i as [|i]; destruct j as [|j]; cbn [update_nth nth_error Nat.eqb option_map]; try reflexivity. apply IH.
+Qed.
+
+Lemma indexed_update i p l : indexed l -> indexed (update_nth i (fun c => with_pid c p) l).
+Proof.
+  unfold indexed. intros H j c Hj. rewrite nth_update in Hj. destruct (Nat.eqb j i).
+  - destruct (nth_error l j) as [c0|] eqn:E; cbn [option_map] in Hj; [|discriminate].
+    inversion Hj; subst. cbn [with_pid c_i]. apply (H j c0 E).
+  - apply (H j c Hj).
+Qed.
+
+Lemma fresh_update i p n l : p < n -> Forall (fun c => c_pid c < n) l ->
+  Forall (fun c => c_pid c < n) (update_nth i (fun c => with_pid c p) l).
+Proof.
+  intros Hp H. revert i. induction H as [|x l Hx H IH]; intros [|i]; cbn [update_nth]; constructor; auto.
+Qed.
+
+Lemma fresh_weaken n m l : n <= m -> Forall (fun c => c_pid c < n) l -> Forall (fun c => c_pid c < m) l.
+Proof. intros Hnm H. eapply Forall_impl; [|exact H]. cbn. intros; lia. Qed.
+
+Lemma running_clear_nodup i l : NoDup (running l) -> NoDup (running (update_nth i (fun c => with_pid c 0) l)).
+Proof.
+  unfold running. revert i. induction l as [|x l IH]; intros i H; [destruct i; exact H|].
+  cbn [filter] in H. destruct i as [|i]; cbn [update_nth filter with_pid c_pid].
+  - cbn [Z.eqb negb]. destruct (negb (c_pid x =? 0)); cbn [map] in H; [inversion H; assumption | exact H].
+  - destruct (negb (c_pid x =? 0)) eqn:E; cbn [map] in *.
+    + inversion H as [|? ? Hnot Hnd]; subst. constructor; [|apply IH; exact Hnd].
+      intros Hin. apply Hnot. clear -Hin. revert i Hin. induction l as [|y l IHl]; intros i Hin; [destruct i; exact Hin|].
+      destruct i as [|i]; cbn [update_nth filter with_pid c_pid] in Hin.
+      * cbn [Z.eqb negb] in Hin. cbn [filter]. destruct (negb (c_pid y =? 0)); cbn [map In]; [right|]; exact Hin.
+      * cbn [filter]. destruct (negb (c_pid y =? 0)); cbn [map In] in *; [destruct Hin as [?|Hin]; [left; assumption | right; eapply IHl; exact Hin] | eapply IHl; exact Hin].
+    + apply IH. exact H.
+Qed.
+
+Lemma running_in_update i p l q : In q (running (update_nth i (fun c => with_pid c p) l)) -> q = p \/ In q (running l).
+Proof.
+  unfold running. revert i. induction l as [|x l IH]; intros i H; [destruct i; contradiction|].
+  destruct i as [|i]; cbn [update_nth filter with_pid c_pid] in H.
+  - cbn [filter]. destruct (negb (p =? 0)); cbn [map In] in H.
+    + destruct H as [<-|H]; [left; reflexivity|]. right. destruct (negb (c_pid x =? 0)); cbn [map In]; [right|]; exact H.
+    + right. destruct (negb (c_pid x =? 0)); cbn [map In]; [right|]; exact H.
+  - cbn [filter]. destruct (negb (c_pid x =? 0)); cbn [map In] in *.
+    + destruct H as [H|H]; [right; left; exact H|]. destruct (IH i H) as [?|?]; [left|right; right]; assumption.
+    + apply IH in H. exact H.
+Qed.
+
+Lemma running_lt n l q : Forall (fun c => c_pid c < n) l -> In q (running l) -> q < n.
+Proof.
+  intros H Hin. unfold running in Hin. apply in_map_iff in Hin as [c [<- Hc]]. apply filter_In in Hc as [Hc _].
+  rewrite Forall_forall in H. apply H. exact Hc.
+Qed.
+
+Lemma running_set_nodup i n l :
+  Forall (fun c => c_pid c < n) l -> NoDup (running l) ->
+  NoDup (running (update_nth i (fun c => with_pid c n) (update_nth i (fun c => with_pid c 0) l))).
+Proof.
+  intros Hf Hnd. revert i. induction l as [|x l IH]; intros i; [destruct i; constructor|].
+  inversion Hf as [|? ? Hx Hl]; subst.
+  assert (Hnd' : NoDup (running l)).
+  { unfold running in *. cbn [filter] in Hnd. destruct (negb (c_pid x =? 0)); cbn [map] in Hnd; [inversion Hnd; assumption|exact Hnd]. }
+  destruct i as [|i]; cbn [update_nth].
+  - unfold running. cbn [filter with_pid c_pid]. destruct (negb (n =? 0)); cbn [map]; [|exact Hnd'].
+    constructor; [|exact Hnd']. intros Hin. apply (running_lt n l n Hl) in Hin. lia.
+  - unfold running. cbn [filter]. destruct (negb (c_pid x =? 0)) eqn:E; cbn [map]; [|apply IH; assumption].
+    constructor; [|apply IH; assumption].
+    intros Hin. change (In (c_pid x) (running (update_nth i (fun c => with_pid c n) (update_nth i (fun c => with_pid c 0) l)))) in Hin.
+    apply running_in_update in Hin as [Hin|Hin]; [lia|].
+    apply running_in_update in Hin as [Hin|Hin].
+    + rewrite Hin in E. discriminate.
+    + unfold running in Hnd. cbn [filter] in Hnd. rewrite E in Hnd. cbn [map] in Hnd. inversion Hnd; subst. contradiction.
+Qed.
+
+Lemma anames_update i g al : (forall a, a_name (g a) = a_name a) -> map a_name (aupdate_nth i g al) = map a_name al.
+Proof.
+  intros Hg. revert i. induction al as [|x al IH]; intros [|i]; cbn [aupdate_nth map]; try reflexivity.
+  - rewrite Hg. reflexivity.
+  - f_equal. apply IH.
+Qed.
+
+Lemma anth_update g : forall al i a, nth_error al i = Some a -> nth_error (aupdate_nth i g al) i = Some (g a).
+Proof.
+  induction al as [|x al IH]; intros i a H; [destruct i; discriminate|].
+  destruct i as [|i]; cbn [nth_error aupdate_nth] in *; [inversion H; reflexivity | apply IH; exact H].
+Qed.
+
+Lemma rel_length l al : Forall2 rel l al -> length l = length al.
+Proof. induction 1; cbn [length]; congruence. Qed.
+
+(* ---- the loop -------------------------------------------------------------------------------------------------- *)
+Record hev := mk_hev { h_i : nat; h_reason : Z; h_now : Z }.
+
+(* implementation side: exit of the running instance of spec i, then the spawn + childStarted if asked for.
+   Third component: the stop action, once the supervisor starts to stop (then the loop ends; the shutdown phase is
+   covered by shutdown_terminates). *)
+Definition ofo_loop_step (k : config) (s : state) (next : Z) (e : hev) : state * Z * option action :=
+  match nth_error (specs s) (h_i e) with
+  | None => (s, next, None)
+  | Some ci =>
+      if c_pid ci =? 0 then (s, next, None)                 (* no running instance: nothing can exit *)
+      else
+        match ofo_childTerminated k s (c_name ci) (c_pid ci) (h_reason e) (h_now e) with
+        | (s1, RAct (StartChild c)) => (fst (ofo_childStarted false s1 (c_i c) (c_name c) next), next + 1, None)
+        | (s1, RAct DoNothing) => (s1, next, None)
+        | (s1, RAct a) => (s1, next, Some a)
+        | (s1, _) => (s1, next, Some DoNothing)
+        end
+  end.
+
+(* specification side *)
+Definition a_loop_step (k : config) (a : astate) (e : hev) : astate :=
+  match nth_error (a_children a) (h_i e) with
+  | None => a
+  | Some ai => if Nat.eqb (a_up ai) 0 then a else a_exit k a (a_name ai) (h_reason e) (h_now e)
+  end.
+
+Definition stop_ok (s' : state) (a' : astate) (st : action) : Prop :=
+  match st with
+  | Terminate r => a_phase a' = ADead r /\ running (specs s') = []
+  | TerminateChildren run r =>
+      a_phase a' = (if is_nil run then ADead r else AShutting r) /\ run = running (specs s') /\
+      wait s' = zset run /\ shut s' = true /\ sreason s' = r /\ Forall2 rel (specs s') (a_children a')
+  | _ => False
+  end.
+
+Lemma rel_dec c a : rel c a -> rel (with_pid c 0) (a_dec a).
+Proof. intros [H1 [H2 [H3 [H4 H5]]]]. unfold rel. cbn. repeat split; auto. rewrite H5. destruct (c_pid c =? 0); reflexivity. Qed.
+
+Lemma rel_one n c a : n <> 0 -> rel c a -> rel (with_pid c n) (a_one a).
+Proof.
+  intros Hn [H1 [H2 [H3 [H4 H5]]]]. unfold rel. cbn. repeat split; auto.
+  destruct (n =? 0) eqn:E; [apply Z.eqb_eq in E; contradiction | reflexivity].
+Qed.
+
+Lemma ofo_loop_step_ok k s a next e :
+  Iv k s a next ->
+  let '(s', next', st) := ofo_loop_step k s next e in
+  let a' := a_loop_step k a e in
+  match st with
+  | None => Iv k s' a' next'
+  | Some act => stop_ok s' a' act
+  end.
+Proof.
+  intros [Hk Hshut Hmode Hph Hrel Hnames Hpids Hfresh Hidx Hrs Hpos].
+  unfold ofo_loop_step, a_loop_step. set (i := h_i e).
+  destruct (nth_error (specs s) i) as [ci|] eqn:Hci.
+  2:{ (* no such spec on either side *)
+    assert (Hnone : nth_error (a_children a) i = None).
+    { apply nth_error_None. rewrite <- (rel_length _ _ Hrel). apply nth_error_None. exact Hci. }
+    rewrite Hnone. constructor; assumption. }
+  destruct (rel_nth _ _ _ _ Hrel Hci) as [ai [Hai Hr]]. rewrite Hai.
+  pose proof Hr as [Hrn [Hrd [Hrad [Hrsig Hrup]]]].
+  destruct (c_pid ci =? 0) eqn:Ep.
+  { rewrite Hrup. cbn [Nat.eqb]. constructor; assumption. }
+  rewrite Hrup. cbn [Nat.eqb].
+  assert (Hp0 : c_pid ci <> 0) by (apply Z.eqb_neq; exact Ep).
+  pose proof (only_i_of_inv _ _ _ Hnames Hpids Hci Hp0) as Honly.
+  pose proof (last_match_only_i _ _ _ _ 0%nat ci Honly Hci) as Hlm. cbn [Nat.add] in Hlm.
+  pose proof (clear_only_i _ _ _ _ Honly) as Hclear.
+  set (name := c_name ci) in *. set (pid := c_pid ci) in *. set (sp := with_pid ci 0) in *.
+  rewrite (ofo_unfold k s name pid (h_reason e) (h_now e) i sp Hshut Hlm). cbn zeta.
+  set (specs1 := update_nth i (fun c => with_pid c 0) (specs s)) in *.
+  assert (Hrun : running_others name pid (specs s) = running specs1).
+  { rewrite <- running_others_clear, Hclear. reflexivity. }
+  rewrite Hrun, Hclear. fold specs1.
+  set (s1 := set_specs (set_wait s (zremove pid (wait s))) specs1).
+  (* specification side *)
+  assert (HnamesA : NoDup (map a_name (a_children a))) by (rewrite (rel_names _ _ Hrel); exact Hnames).
+  assert (HnA : a_name ai = name) by (subst name; congruence).
+  rewrite HnA. unfold a_exit. rewrite Hph. rewrite (a_find_nth name _ i ai 0%nat HnamesA Hai HnA). cbn [Nat.add].
+  rewrite (a_update_nth name a_dec _ i ai HnamesA Hai HnA).
+  set (al1 := aupdate_nth i a_dec (a_children a)).
+  assert (Hrel1 : Forall2 rel specs1 al1) by (apply rel_update; [exact Hrel | exact rel_dec]).
+  assert (Hnone1 : a_none_up al1 = is_nil (running specs1)) by (apply rel_none_up; exact Hrel1).
+  cbn [a_set_children a_children a_phase a_restarts]. rewrite Hk.
+  replace (c_dis sp) with false by (subst sp; cbn; congruence). rewrite Hrad.
+  assert (Hnames1 : NoDup (map c_name specs1)) by (subst specs1; rewrite names_update; exact Hnames).
+  assert (Hpids1 : NoDup (running specs1)) by (apply running_clear_nodup; exact Hpids).
+  assert (Hfresh1 : Forall (fun c => c_pid c < next) specs1) by (apply fresh_update; assumption).
+  assert (Hidx1 : indexed specs1) by (apply indexed_update; exact Hidx).
+  replace (c_sig sp) with (a_sig ai) by (subst sp; cbn; congruence).
+  destruct (strategy_stops k (h_reason e)) eqn:Est.
+  - (* not to be restarted *)
+    unfold no_restart. replace (c_sig sp) with (a_sig ai) by (subst sp; cbn; congruence).
+    destruct (a_sig ai).
+    + (* significant: the supervisor stops *)
+      unfold a_stop. cbn [a_children a_set_children]. rewrite Hnone1.
+      destruct (is_nil (running specs1)) eqn:En.
+      * cbn [stop_ok a_phase a_set_phase]. split; [reflexivity|]. apply is_nil_true. exact En.
+      * unfold enter_shutdown. cbn [stop_ok a_phase a_set_phase a_children a_set_children].
+        rewrite En. cbn. repeat split; auto.
+    + (* not significant: auto-shutdown or nothing *)
+      cbn [a_children a_set_children]. rewrite Hnone1.
+      destruct (is_nil (running specs1) && k_auto k) eqn:En.
+      * cbn [stop_ok a_phase a_set_phase]. split; [reflexivity|]. apply andb_true_iff in En as [En _].
+        apply is_nil_true. exact En.
+      * constructor; cbn; auto.
+  - (* to be restarted: the intensity check, on the same restart list *)
+    rewrite <- Hrs. destruct (check (restarts s) (h_now e) (k_per k) (k_int k)) as [rs ex].
+    destruct ex; cbn [negb].
+    + (* exceeded *)
+      unfold a_stop, enter_shutdown. cbn [a_children a_phase a_set_phase]. rewrite Hnone1.
+      cbn [stop_ok specs set_restarts set_specs set_wait set_shut wait shut sreason s1].
+      subst s1. cbn [specs set_specs set_wait]. repeat split; auto.
+    + (* restart: spawn with the fresh pid, childStarted *)
+      cbn [c_i c_name sp with_pid]. replace (c_i ci) with i by (symmetry; apply (Hidx i ci Hci)).
+      set (s2 := set_restarts s1 rs).
+      assert (Hsp : nth_error (specs s2) i = Some sp).
+      { subst s2 s1 specs1. cbn [specs set_restarts set_specs]. rewrite nth_update, Nat.eqb_refl, Hci. reflexivity. }
+      unfold ofo_childStarted. rewrite Hsp. subst sp. cbn [c_name with_pid]. fold name. rewrite Z.eqb_refl. cbn [negb].
+      replace (mode s2) with 0 by (subst s2 s1; cbn; congruence). change (negb (0 =? 1)) with true. cbn iota. cbn [fst].
+      rewrite (a_update_nth name a_one al1 i (a_dec ai)).
+      2:{ subst al1. rewrite anames_update by reflexivity. exact HnamesA. }
+      2:{ subst al1. apply anth_update. exact Hai. }
+      2:{ cbn. exact HnA. }
+      assert (Hn0 : next <> 0) by lia.
+      constructor; cbn [specs set_specs set_restarts set_wait shut mode a_phase a_children a_restarts a_set_children restarts];
+        auto; try lia.
+      * subst al1. apply rel_update; [exact Hrel1 | intros c0 a0; apply rel_one; exact Hn0].
+      * rewrite names_update. exact Hnames1.
+      * subst specs1. apply running_set_nodup; assumption.
+      * apply fresh_update; [lia|]. eapply fresh_weaken; [|exact Hfresh1]. lia.
+      * apply indexed_update. exact Hidx1.
+Qed.
+
+Fixpoint ofo_loop (k : config) (s : state) (next : Z) (a : astate) (h : list hev) : state * astate * option action :=
+  match h with
+  | [] => (s, a, None)
+  | e :: tl =>
+      let '(s', next', st) := ofo_loop_step k s next e in
+      let a' := a_loop_step k a e in
+      match st with
+      | None => ofo_loop k s' next' a' tl
+      | Some act => (s', a', Some act)
+      end
+  end.
+
+(* C08_quiescent_children for one-for-one: after ANY history of child exits, as long as the supervisor has not
+   started to stop, the children recorded as running are exactly the prescribed ones; and when it starts to stop
+   (significant child, auto-shutdown, intensity exceeded) it does so exactly when the specification does, with the
+   same reason, telling every running child to stop. *)
+Theorem ofo_closed_loop k : forall h s a next,
+  Iv k s a next ->
+  let '(s', a', st) := ofo_loop k s next a h in
+  match st with
+  | None => a_phase a' = ANormal /\ m_view k s' = a_view a' /\ shut s' = false /\ mode s' = 0
+  | Some act => stop_ok s' a' act
+  end.
+Proof.
+  induction h as [|e h IH]; intros s a next Hiv; cbn [ofo_loop].
+  - destruct Hiv as [Hk Hshut Hmode Hph Hrel _ _ _ _ _ _]. repeat split; auto.
+    unfold a_view. apply rel_view; assumption.
+  - pose proof (ofo_loop_step_ok k s a next e Hiv) as Hstep.
+    destruct (ofo_loop_step k s next e) as [[s' next'] st]. cbn zeta in Hstep.
+    destruct st as [act|]; [exact Hstep|]. apply IH. exact Hstep.
+Qed.
+
+(* ---- the hypothesis is satisfiable: a decidable version of Iv, sound, and true of the state the driver reaches
+   after ProcessInit ------------------------------------------------------------------------------------------- *)
+Fixpoint nodupb (l : list Z) : bool :=
+  match l with
+  | [] => true
+  | x :: tl => negb (existsb (Z.eqb x) tl) && nodupb tl
+  end.
+Lemma nodupb_sound l : nodupb l = true -> NoDup l.
+Proof.
+  induction l as [|x l IH]; cbn [nodupb]; intros H; constructor.
+  - apply andb_true_iff in H as [H _]. apply negb_true_iff in H. intros Hin.
+    assert (E : existsb (Z.eqb x) l = true) by (apply existsb_exists; exists x; split; [exact Hin | apply Z.eqb_refl]).
+    congruence.
+  - apply IH. apply andb_true_iff in H. tauto.
+Qed.
+
+Definition relb (c : cspec) (a : achild) : bool :=
+  (c_name c =? a_name a) && negb (c_dis c) && negb (a_dis a) && Bool.eqb (c_sig c) (a_sig a) &&
+  Nat.eqb (a_up a) (if c_pid c =? 0 then 0%nat else 1%nat).
+Fixpoint forall2b {A B} (f : A -> B -> bool) (l : list A) (m : list B) : bool :=
+  match l, m with
+  | [], [] => true
+  | x :: l', y :: m' => f x y && forall2b f l' m'
+  | _, _ => false
+  end.
+Lemma relb_sound c a : relb c a = true -> rel c a.
+Proof.
+  unfold relb, rel. intros H. repeat (apply andb_true_iff in H as [H ?]).
+  apply Z.eqb_eq in H. apply negb_true_iff in H3, H2. apply eqb_prop in H1. apply Nat.eqb_eq in H0. auto.
+Qed.
+Lemma forall2b_sound l m : forall2b relb l m = true -> Forall2 rel l m.
+Proof.
+  revert m. induction l as [|x l IH]; intros [|y m] H; cbn [forall2b] in H; try discriminate; constructor.
+  - apply relb_sound. apply andb_true_iff in H. tauto.
+  - apply IH. apply andb_true_iff in H. tauto.
+Qed.
+Fixpoint indexedb (l : list cspec) (i : nat) : bool :=
+  match l with
+  | [] => true
+  | c :: tl => Nat.eqb (c_i c) i && indexedb tl (S i)
+  end.
+Lemma indexedb_sound l k0 : indexedb l k0 = true -> forall i c, nth_error l i = Some c -> c_i c = (k0 + i)%nat.
+Proof.
+  revert k0. induction l as [|x l IH]; intros k0 H i c Hn; [destruct i; discriminate|].
+  cbn [indexedb] in H. apply andb_true_iff in H as [H1 H2].
+  destruct i as [|i]; cbn [nth_error] in Hn.
+  - inversion Hn; subst. apply Nat.eqb_eq in H1. lia.
+  - rewrite (IH (S k0) H2 i c Hn). lia.
+Qed.
+
+Definition iv_b (k : config) (s : state) (a : astate) (next : Z) : bool :=
+  match k_kind k with OFO => true | _ => false end && negb (shut s) && (mode s =? 0) &&
+  a_normal a && forall2b relb (specs s) (a_children a) && nodupb (map c_name (specs s)) &&
+  nodupb (running (specs s)) && forallb (fun c => c_pid c <? next) (specs s) && indexedb (specs s) 0 &&
+  zlist_eqb (restarts s) (a_restarts a) && (0 <? next).
+
+Lemma iv_b_sound k s a next : iv_b k s a next = true -> Iv k s a next.
+Proof.
+  unfold iv_b. intros H. repeat (apply andb_true_iff in H as [H ?]).
+  constructor.
+  - destruct (k_kind k); try discriminate; reflexivity.
+  - apply negb_true_iff. assumption.
+  - apply Z.eqb_eq. assumption.
+  - unfold a_normal in *. destruct (a_phase a); try discriminate; reflexivity.
+  - apply forall2b_sound. assumption.
+  - apply nodupb_sound. assumption.
+  - apply nodupb_sound. assumption.
+  - apply Forall_forall. intros c Hc. rewrite forallb_forall in H3. specialize (H3 c Hc). lia.
+  - intros i c Hn. apply (indexedb_sound _ 0%nat H2 i c Hn).
+  - apply zlist_eqb_eq. assumption.
+  - lia.
+Qed.
+
+(* the state after ProcessInit (driver [start]: init + handleAction) of a 4-children supervisor meets the invariant,
+   for every strategy / flags (instances; the general statement for every child list is covered by the
+   correspondence check only) *)
+Example ofo_start_meets_invariant :
+  forallb (fun k => let s := start k [(1, false); (2, true); (3, false); (4, false)] 0 in
+                    iv_b k (m s) (a_init k [(1, false); (2, true); (3, false); (4, false)]) (nextpid s))
+    [mk_config OFO Transient false true 3 5; mk_config OFO Temporary false false 3 5;
+     mk_config OFO Permanent true true 1 1] = true.
+Proof. vm_compute. reflexivity. Qed.
+
+(* and a concrete non-trivial history through the theorem: child 3 fails twice, child 1 exits normally, the
+   significant child 2 exits normally -> the supervisor stops the two others with reason normal *)
+Example ofo_closed_loop_example :
+  let k := mk_config OFO Transient false true 3 5 in
+  let cs := [(1, false); (2, true); (3, false); (4, false)] in
+  let s := start k cs 0 in
+  match ofo_loop k (m s) (nextpid s) (a_init k cs)
+          [mk_hev 2 10 100; mk_hev 2 11 200; mk_hev 0 1 300; mk_hev 1 1 400] with
+  | (s', a', Some (TerminateChildren run r)) => (run, r, a_phase a') = ([1006; 1004], 1, AShutting 1)
+  | _ => False
+  end.
+Proof. vm_compute. reflexivity. Qed.
+
+(* ==== ProcessInit establishes the invariant, for every child list ==================================================
+   the start chain of handleAction (init answers the start of spec 0 in starting mode; every childStarted answers
+   the start of the next spec) gives the children consecutive fresh pids and ends in normal mode *)
+Fixpoint assign (l : list cspec) (p : Z) : list cspec :=
+  match l with
+  | [] => []
+  | c :: tl => with_pid c p :: assign tl (p + 1)
+  end.
+
+Lemma update_nth_app pre x post f : update_nth (length pre) f (pre ++ x :: post) = pre ++ f x :: post.
+Proof. induction pre as [|y pre IH]; cbn [length update_nth app]; [reflexivity | f_equal; exact IH]. Qed.
+
+Lemma nth_error_app_mid pre (x : cspec) post : nth_error (pre ++ x :: post) (length pre) = Some x.
+Proof. induction pre as [|y pre IH]; cbn [length nth_error app]; [reflexivity | exact IH]. Qed.
+
+Lemma skipn_app_mid pre (x : cspec) post : skipn (S (length pre)) (pre ++ x :: post) = post.
+Proof. induction pre as [|y pre IH]; cbn [length skipn app]; [reflexivity | exact IH]. Qed.
+
+Definition fresh_spec (c : cspec) : Prop := c_pid c = 0 /\ c_dis c = false.
+
+Lemma handleAction_nothing k fuel fail s : handleAction k fuel fail s (RAct DoNothing) = (s, HNil).
+Proof. destruct fuel; reflexivity. Qed.
+
+Lemma start_chain k : forall post pre x c s fuel,
+  k_kind k = OFO ->
+  specs (m s) = pre ++ x :: post -> mode (m s) = 1 ->
+  c_i c = length pre -> c_name c = c_name x -> Forall fresh_spec post -> (length post < fuel)%nat ->
+  exists s', handleAction k fuel 0 s (RAct (StartChild c)) = (s', HNil) /\
+             specs (m s') = pre ++ assign (x :: post) (nextpid s) /\ mode (m s') = 0 /\
+             nextpid s' = nextpid s + Z.of_nat (S (length post)) /\ alive s' = alive s /\
+             shut (m s') = shut (m s) /\ restarts (m s') = restarts (m s).
+Proof.
+  induction post as [|y post IH]; intros pre x c s fuel Hk Hsp Hmode Hci Hcn Hfresh Hfuel.
+  - destruct fuel as [|fuel]; [lia|]. cbn [handleAction Nat.eqb]. unfold sup_spawn. cbn [m nextpid].
+    unfold childStarted. rewrite Hk. unfold ofo_childStarted. rewrite Hci, Hsp, nth_error_app_mid, Hcn, Z.eqb_refl.
+    cbn [negb]. rewrite Hmode. change (negb (1 =? 1)) with false. cbn iota.
+    rewrite app_length. cbn [length]. replace (Nat.eqb (S (length pre)) (length pre + 1)) with true
+      by (symmetry; apply Nat.eqb_eq; lia).
+    rewrite handleAction_nothing. eexists. split; [reflexivity|].
+    cbn [sup_log m nextpid alive set_mode set_specs specs mode shut restarts Nat.pred].
+    rewrite update_nth_app. cbn [assign length]. repeat split; auto; lia.
+  - destruct fuel as [|fuel]; [cbn [length] in Hfuel; lia|]. cbn [handleAction Nat.eqb]. unfold sup_spawn. cbn [m nextpid].
+    unfold childStarted. rewrite Hk. unfold ofo_childStarted. rewrite Hci, Hsp, nth_error_app_mid, Hcn, Z.eqb_refl.
+    cbn [negb]. rewrite Hmode. change (negb (1 =? 1)) with false. cbn iota.
+    rewrite app_length. cbn [length]. replace (Nat.eqb (S (length pre)) (length pre + S (S (length post)))) with false
+      by (symmetry; apply Nat.eqb_neq; lia).
+    cbn [set_specs specs]. rewrite update_nth_app, skipn_app_mid.
+    inversion Hfresh as [|? ? [Hy0 Hyd] Hfresh']; subst.
+    cbn [next_to_start]. rewrite Hy0. change (negb (0 =? 0)) with false. cbn iota. rewrite Hyd.
+    set (s1 := sup_log _ _ _ _).
+    set (c' := mk_cspec (c_name y) 0 false (c_sig y) (S (length pre))).
+    destruct (IH (pre ++ [with_pid x (nextpid s)]) y c' s1 fuel Hk) as [s' [Hh [Hs [Hm [Hn [Ha [Hsh Hr]]]]]]].
+    + subst s1. cbn [sup_log m set_specs specs]. rewrite <- app_assoc. reflexivity.
+    + subst s1. cbn [sup_log m set_specs mode]. exact Hmode.
+    + subst c'. cbn [c_i]. rewrite app_length. cbn [length]. lia.
+    + reflexivity.
+    + exact Hfresh'.
+    + cbn [length] in Hfuel. lia.
+    + exists s'. cbn [Nat.pred]. split; [exact Hh|].
+      subst s1. cbn [sup_log m nextpid alive set_specs shut restarts] in *.
+      rewrite Hs, <- app_assoc. cbn [app assign]. repeat split; auto.
+      rewrite Hn. cbn [length]. lia.
+Qed.
+
+(* the pids of [assign l p] are p, p+1, ... *)
+Lemma assign_props : forall l p,
+  0 < p ->
+  Forall (fun c => p <= c_pid c < p + Z.of_nat (length l)) (assign l p) /\
+  NoDup (running (assign l p)) /\ map c_name (assign l p) = map c_name l.
+Proof.
+  induction l as [|x l IH]; intros p Hp; cbn [assign length map].
+  - repeat split; constructor.
+  - destruct (IH (p + 1)) as [Hf [Hnd Hnm]]; [lia|]. split; [|split].
+    + constructor; [cbn; lia|]. eapply Forall_impl; [|exact Hf]. cbn. intros; lia.
+    + unfold running. cbn [filter with_pid c_pid]. destruct (p =? 0) eqn:E; [apply Z.eqb_eq in E; lia|].
+      cbn [negb map]. constructor; [|exact Hnd]. intros Hin.
+      unfold running in Hin. apply in_map_iff in Hin as [c [Hc Hin]]. apply filter_In in Hin as [Hin _].
+      rewrite Forall_forall in Hf. specialize (Hf c Hin). cbn [with_pid c_pid] in Hc. lia.
+    + cbn. f_equal. exact Hnm.
+Qed.
+
+Lemma mk_specs_indexed cs k0 : forall i c, nth_error (mk_specs cs k0) i = Some c -> c_i c = (k0 + i)%nat.
+Proof.
+  revert k0. induction cs as [|[n sg] cs IH]; intros k0 i c H; [destruct i; discriminate|].
+  destruct i as [|i]; cbn [mk_specs nth_error] in H; [inversion H; subst; cbn; lia|].
+  rewrite (IH (S k0) i c H). lia.
+Qed.
+
+Lemma assign_indexed l k0 p :
+  (forall i c, nth_error l i = Some c -> c_i c = (k0 + i)%nat) ->
+  forall i c, nth_error (assign l p) i = Some c -> c_i c = (k0 + i)%nat.
+Proof.
+  revert k0 p. induction l as [|x l IH]; intros k0 p H i c Hn; [destruct i; discriminate|].
+  destruct i as [|i]; cbn [assign nth_error] in Hn.
+  - inversion Hn; subst. cbn. apply (H 0%nat x eq_refl).
+  - rewrite (IH (S k0) (p + 1)) with (i := i) (c := c); [lia| |exact Hn].
+    intros j d Hj. rewrite (H (S j) d Hj). lia.
+Qed.
+
+Lemma mk_specs_fresh cs k0 : Forall fresh_spec (mk_specs cs k0).
+Proof. revert k0. induction cs as [|[n sg] cs IH]; intros k0; cbn [mk_specs]; constructor; [split; reflexivity | apply IH]. Qed.
+
+Lemma mk_specs_names cs k0 : map c_name (mk_specs cs k0) = map fst cs.
+Proof. revert k0. induction cs as [|[n sg] cs IH]; intros k0; cbn [mk_specs map]; [reflexivity|]. cbn. f_equal. apply IH. Qed.
+
+Lemma assign_rel k : forall cs k0 p, 0 < p -> k_kind k = OFO ->
+  Forall2 rel (assign (mk_specs cs k0) p) (a_children (a_init k cs)).
+Proof.
+  intros cs k0 p Hp Hk. unfold a_init. cbn [a_children]. rewrite Hk.
+  revert k0 p Hp. induction cs as [|[n sg] cs IH]; intros k0 p Hp; cbn [mk_specs assign map]; constructor.
+  - unfold rel. cbn. destruct (p =? 0) eqn:E; [apply Z.eqb_eq in E; lia|]. repeat split; reflexivity.
+  - apply IH. lia.
+Qed.
+
+Theorem ofo_start_establishes_invariant k cs :
+  k_kind k = OFO -> cs <> [] -> NoDup (map fst cs) ->
+  let s := start k cs 0 in
+  alive s = true /\ Iv k (m s) (a_init k cs) (nextpid s).
+Proof.
+  intros Hk Hcs Hnd. unfold start, init. rewrite Hk.
+  destruct cs as [|[n sg] cs]; [congruence|]. cbn [mk_specs].
+  set (x := mk_cspec n 0 false sg 0).
+  set (s0 := mk_sup _ _ _ _ _ _ _).
+  destruct (start_chain k (mk_specs cs 1) [] x x s0 (fuel_of s0) Hk) as [s' [Hh [Hs [Hm [Hn [Ha [Hsh Hr]]]]]]].
+  - reflexivity.
+  - reflexivity.
+  - reflexivity.
+  - reflexivity.
+  - apply mk_specs_fresh.
+  - subst s0. unfold fuel_of. cbn [m specs set_mode set_specs length]. lia.
+  - rewrite Hh. cbn [app] in Hs. subst s0. cbn [nextpid alive m shut restarts set_mode set_specs empty_state] in *.
+    split; [exact Ha|].
+    change (x :: mk_specs cs 1) with (mk_specs ((n, sg) :: cs) 0) in Hs.
+    destruct (assign_props (mk_specs ((n, sg) :: cs) 0) firstpid) as [Hf [Hnd' Hnm]]; [unfold firstpid; lia|].
+    constructor.
+    + exact Hk.
+    + exact Hsh.
+    + exact Hm.
+    + reflexivity.
+    + rewrite Hs. apply assign_rel; [unfold firstpid; lia | exact Hk].
+    + rewrite Hs, Hnm, mk_specs_names. exact Hnd.
+    + rewrite Hs. exact Hnd'.
+    + rewrite Hs, Hn. eapply Forall_impl; [|exact Hf]. cbn. intros c Hc.
+      cbn [mk_specs length] in Hc. rewrite ?Nat2Z.inj_succ in *. cbn [length]. lia.
+    + rewrite Hs. intros i c Hi. apply (assign_indexed _ 0%nat firstpid (mk_specs_indexed _ 0%nat) i c Hi).
+    + rewrite Hr. reflexivity.
+    + rewrite Hn. unfold firstpid. lia.
+Qed.
+
+(* from ProcessInit on: every one-for-one supervisor (any strategy, flags, child list with distinct names), every
+   history of child exits *)
+Theorem ofo_closed_loop_from_init k cs h :
+  k_kind k = OFO -> cs <> [] -> NoDup (map fst cs) ->
+  let s := start k cs 0 in
+  alive s = true /\
+  let '(s', a', st) := ofo_loop k (m s) (nextpid s) (a_init k cs) h in
+  match st with
+  | None => a_phase a' = ANormal /\ m_view k s' = a_view a' /\ shut s' = false /\ mode s' = 0
+  | Some act => stop_ok s' a' act
+  end.
+Proof.
+  intros Hk Hcs Hnd. destruct (ofo_start_establishes_invariant k cs Hk Hcs Hnd) as [Ha Hiv].
+  split; [exact Ha|]. apply ofo_closed_loop. exact Hiv.
 Qed.
